@@ -27,6 +27,7 @@ import (
 	"encoding/hex"
 	"encoding/json"
 	"fmt"
+	"hash/crc32"
 	"io"
 	"math/rand"
 	"net/http"
@@ -196,6 +197,58 @@ func c20gz(b []byte) []byte {
 	gz.Close()
 	return buf.Bytes()
 }
+
+// c20gzStored writes a valid gzip stream made of stored (uncompressed) deflate blocks.  Used under the
+// race detector, where initialising a compress/flate writer costs ~0.4 s (zip: one writer per file).
+func c20gzStored(b []byte) []byte {
+	var out bytes.Buffer
+	out.Write([]byte{0x1f, 0x8b, 8, 0, 0, 0, 0, 0, 0, 255})
+	for off := 0; ; {
+		n := len(b) - off
+		if n > 65535 {
+			n = 65535
+		}
+		final := byte(0)
+		if off+n == len(b) {
+			final = 1
+		}
+		out.Write([]byte{final, byte(n), byte(n >> 8), byte(^n), byte(^n >> 8)})
+		out.Write(b[off : off+n])
+		off += n
+		if final == 1 {
+			break
+		}
+	}
+	crc := crc32.ChecksumIEEE(b)
+	l := uint32(len(b))
+	out.Write([]byte{byte(crc), byte(crc >> 8), byte(crc >> 16), byte(crc >> 24), byte(l), byte(l >> 8), byte(l >> 16), byte(l >> 24)})
+	return out.Bytes()
+}
+
+// c20buildFast: same archive formats without compress/flate writers (zip Store, gzip stored blocks, external xz).
+func c20buildFast(format string, ents []c20ent) ([]byte, error) {
+	switch format {
+	case "zip":
+		return c20zipBytes(ents, rand.New(c20constSource{}))
+	case "tgz":
+		b, err := c20tarBytes(ents)
+		if err != nil {
+			return nil, err
+		}
+		return c20gzStored(b), nil
+	}
+	b, err := c20tarBytes(ents)
+	if err != nil {
+		return nil, err
+	}
+	return c20xz(b)
+}
+
+// c20constSource makes rng.Intn(3)==0 always true: c20zipBytes then stores every member.
+type c20constSource struct{}
+
+func (c20constSource) Int63() int64 { return 0 }
+func (c20constSource) Seed(int64)   {}
 
 func c20xz(b []byte) ([]byte, error) {
 	cmd := exec.Command("xz", "-0", "-T1", "-c")
@@ -706,6 +759,9 @@ type c20env struct {
 
 func c20openFindings() map[string]bool {
 	open := map[string]bool{}
+	if os.Getenv("VERIF_C20_NOAVOID") != "" { // validation aid: generate the avoided constructs as well
+		return open
+	}
 	b, err := os.ReadFile(filepath.Join(os.Getenv("VERIF_DIR"), "findings", "C20.json"))
 	if err != nil {
 		return open
@@ -1421,7 +1477,7 @@ func c20concArchive(rng *rand.Rand, top string, big bool) []c20ent {
 	}
 	nf := 20 + rng.Intn(20)
 	if big {
-		nf = 220 + rng.Intn(80)
+		nf = 140 + rng.Intn(60)
 	}
 	for i := 0; i < nf; i++ {
 		ck := "text"
@@ -1579,7 +1635,7 @@ func (env *c20env) runRound(srv *c20server, r c20round, rng *rand.Rand) {
 		} else {
 			ents = c20concArchive(rng, top, r.Big)
 		}
-		body, err := c20build(r.Format, ents, rng)
+		body, err := c20buildFast(r.Format, ents)
 		if err != nil {
 			rep.Fail("monitor:conc-build", key, err.Error(), nil)
 			return
@@ -1764,7 +1820,7 @@ func (env *c20env) conc(rng *rand.Rand) {
 	id := 0
 	// (a) fixed scenario = probe for the lock-identity defect: first holder fails while a second waits,
 	//     a third arrives while the second is downloading (req2) or extracting (resp2).
-	nprobe := vN(10, 60)
+	nprobe := vN(8, 40)
 	for i := 0; i < nprobe; i++ {
 		r := c20round{ID: id, Entry: []string{"libsub", "lib", "libsub", "esp"}[i%4], Format: c20formats[i%3], Scenario: "failfirst-latejoiner", Big: true}
 		if r.Entry == "esp" {
@@ -1780,7 +1836,7 @@ func (env *c20env) conc(rng *rand.Rand) {
 		env.runRound(srv, r, rng)
 	}
 	// (b) random rounds
-	nrand := vN(36, 700)
+	nrand := vN(30, 400)
 	lockOpen := env.open["C20-lock-identity"]
 	starts := []string{"now", "now", "req1", "resp1", "req2", "visible", "visible"}
 	faults := []string{"ok", "ok", "ok", "slow", "stall", "fail500", "truncate"}
